@@ -192,7 +192,12 @@ func (fr *frame) set(v ssa.Value, x Value) { fr.locals[fr.fi.idx[v]] = x }
 func (e *Engine) get(st *State, fr *frame, v ssa.Value) Value {
 	switch x := v.(type) {
 	case *ssa.Const:
-		return e.constVal(x)
+		if c, ok := e.constCache[x]; ok {
+			return c
+		}
+		c := e.constVal(x)
+		e.constCache[x] = c
+		return c
 	case *ssa.Global:
 		return &Ptr{Obj: e.globalObj(st, x)}
 	case *ssa.Function:
